@@ -497,3 +497,87 @@ Section Iff.
     rewrite (between_iff _ _ _ _ _ _ _ _ _ (conj HwL HuL) (conj HwR HuR) EF). reflexivity.
   Qed.
 End Iff.
+
+(* ---- data equality is reflexive (no hypothesis needed) ---- *)
+Lemma tag_eqb_refl : forall t, tag_eqb t t = true.
+Proof. destruct t; simpl; auto. apply String.eqb_refl. Qed.
+
+Lemma data_eq_refl : forall a, data_eq a a = true.
+Proof.
+  induction a as [i v|i kvs IH|i els IH|i els IH] using node_ind'.
+  - simpl. rewrite tag_eqb_refl, py_eq_refl. reflexivity.
+  - rewrite data_eq_map, tag_eqb_refl, Nat.eqb_refl. simpl.
+    apply forallb_forall. intros kv Hkv. apply existsb_exists. exists kv. split; auto.
+    rewrite py_eq_refl. simpl. rewrite Forall_forall in IH. apply (IH kv Hkv).
+  - rewrite data_eq_seq, tag_eqb_refl. simpl.
+    induction els as [|x r IHr]; simpl; auto. inversion IH; subst. rewrite H1. simpl. apply IHr; auto.
+  - rewrite data_eq_set, tag_eqb_refl, Nat.eqb_refl. simpl.
+    apply forallb_forall. intros x Hx. apply existsb_exists. exists x. split; auto. apply py_eq_refl.
+Qed.
+
+(* ---- the statements used by Properties/C06.v ---- *)
+Lemma nonsame_iff_differ :
+  forall path_eq cfg am hm L R es,
+    uniform cfg am hm -> unkeyed hm = true ->
+    wf_doc L = true -> wf_doc R = true -> untagged L = true -> untagged R = true ->
+    compare_to path_eq cfg L R = Ok es ->
+    shows_difference es = negb (equiv am hm L R).
+Proof. intros. eapply compare_to_iff; eauto. Qed.
+
+Lemma nonsame_iff_differ_positional :
+  forall path_eq cfg hm L R es,
+    uniform cfg ArrPosition hm -> hm = AohPosition \/ hm = AohDpos ->
+    wf_doc L = true -> wf_doc R = true -> untagged L = true -> untagged R = true ->
+    compare_to path_eq cfg L R = Ok es ->
+    shows_difference es = negb (data_eq L R).
+Proof.
+  intros path_eq cfg hm L R es Hu Hm HwL HwR HuL HuR H.
+  rewrite <- (equiv_positional hm Hm). eapply compare_to_iff; eauto.
+  destruct Hm as [-> | ->]; reflexivity.
+Qed.
+
+(* equal documents (one object, or two loads of one text) show no difference *)
+Lemma equal_no_difference :
+  forall path_eq cfg am hm L R es,
+    uniform cfg am hm -> unkeyed hm = true ->
+    wf_doc L = true -> wf_doc R = true -> untagged L = true -> untagged R = true ->
+    data_eq L R = true ->
+    compare_to path_eq cfg L R = Ok es -> shows_difference es = false.
+Proof.
+  intros path_eq cfg am hm L R es Hu Hk HwL HwR HuL HuR He H.
+  rewrite (compare_to_iff path_eq cfg am hm Hu Hk L R es HwL HwR HuL HuR H).
+  rewrite (data_eq_equiv am hm Hk L R HwL HwR He). reflexivity.
+Qed.
+
+Lemma reflexive_no_difference :
+  forall path_eq cfg am hm L es,
+    uniform cfg am hm -> unkeyed hm = true -> wf_doc L = true -> untagged L = true ->
+    compare_to path_eq cfg L L = Ok es -> shows_difference es = false.
+Proof. intros. eapply equal_no_difference; eauto. apply data_eq_refl. Qed.
+
+(* ---- refutation witnesses ---- *)
+(* F1: two loads of one tagged scalar are equal data, the diff shows a CHANGE *)
+Lemma nonsame_iff_refuted_witness :
+  exists L R es, wf_doc L = true /\ wf_doc R = true /\ data_eq L R = true /\
+    compare_to path_eq_real dflt_cfg L R = Ok es /\ shows_difference es = true.
+Proof.
+  exists (tagged_b 1), (tagged_b 2), [mkentry AChange ""%string [] (tagged_b 1) (tagged_b 2)].
+  repeat split; vm_compute; reflexivity.
+Qed.
+
+(* F4: --aoh key, a record without the identity key: the document differs from itself *)
+Definition key_cfg : dcfg := mkdcfg false [] [] (Some "position"%string) (Some "key"%string) None None.
+Definition pl_leaf (o : N) (v : pyval) : node := NLeaf (mkinfo o None false None) v.
+Definition keyless_doc : node :=
+  NSeq (mkinfo 0 None true None)
+    [NMap (mkinfo 1 None true None) [(pl_leaf 2 (PStr "a"), pl_leaf 3 (PInt 1))];
+     NMap (mkinfo 4 None true None) [(pl_leaf 5 (PStr "b"), pl_leaf 6 (PInt 2))]].
+
+Lemma reflexive_refuted_witness :
+  exists cfg d es, uniform cfg ArrPosition AohKey /\ wf_doc d = true /\ untagged d = true /\
+    compare_to path_eq_real cfg d d = Ok es /\ shows_difference es = true.
+Proof.
+  exists key_cfg, keyless_doc.
+  eexists. split; [split; intros nc; reflexivity|].
+  repeat split; vm_compute; reflexivity.
+Qed.
